@@ -132,3 +132,13 @@ func VerifExpired(ts uint64) bool { return expired(ts) != nil }
 
 // VerifRecoverNodeID is recoverNodeID.
 func VerifRecoverNodeID(hash, sig []byte) (NodeID, error) { return recoverNodeID(hash, sig) }
+
+// VerifValidateComplete runs Node.validateComplete (what discovery applies to every node learned from the network)
+// for a node with this ID and otherwise valid address fields.
+func VerifValidateComplete(id NodeID) error {
+	n, err := NewNode(id, net.IP{10, 1, 2, 3}, 30303, 30303)
+	if err != nil {
+		return err
+	}
+	return n.validateComplete()
+}
